@@ -11,6 +11,19 @@ SCENARIOS = ['handoff_continuation', 'handoff_get', 'shared_moveout', 'shared_su
              'waitgroup_late', 'waitgroup_two_doners', 'wait_two_producers']
 
 
+# scenarios that exercise the atomic sites of a file (for the escalation of the failing-input search)
+RELATED = {
+    'coro/mutex.hpp': ['comutex'], 'coro/shared_mutex.hpp': ['cosharedmutex'], 'spinlock.hpp': ['cosharedmutex'],
+    'exe/strand.cpp': ['strand_counter', 'strand_inline', 'strand_spawn'], 'base_core': ['handoff_continuation', 'handoff_get',
+    'handoff_race', 'shared_subscribers', 'shared_moveout'], 'atomic_counter.hpp': ['shared_moveout', 'strand_counter',
+    'waitgroup_two_doners', 'wait_two_producers'], 'one_shot_event': ['waitgroup_late', 'waitgroup_two_doners'],
+    'wait_group.hpp': ['waitgroup_late', 'waitgroup_two_doners'], 'when/': ['when_all', 'when_any'],
+    'coro/detail/': ['coawait'], 'shared_event.hpp': ['coawait'], 'fair_thread_pool': ['pool_pipeline'],
+    'wait_impl.hpp': ['wait_two_producers', 'handoff_get'], 'shared_core.hpp': ['shared_moveout', 'shared_subscribers'],
+    'result_core.hpp': ['shared_moveout', 'handoff_continuation'],
+}
+
+
 def extract():
     lib = C.build_lib('fiber')
     try:
@@ -73,6 +86,17 @@ def run(res, tier):
     if tier == 'thorough' or broken or ins or unk:
         tsan = tsan_run(150 if tier == 'quick' else 1500)
     racy = [t for t in tsan if t['reports'] > 0]
+    if (broken or ins or unk) and not racy and tier == 'quick':
+        # a race detector on real threads is probabilistic: before giving up on a failing input, look harder — all scenarios
+        # with ten times the iterations, then the scenarios that exercise the files of the offending sites once more
+        tsan = tsan_run(1500)
+        racy = [t for t in tsan if t['reports'] > 0]
+        if not racy:
+            rel = sorted({sc for site in (ins + unk) for key, scs in RELATED.items() if key in site for sc in scs})
+            if rel:
+                more = tsan_run(8000, rel)
+                tsan += more
+                racy = [t for t in more if t['reports'] > 0]
     crashed = [t for t in tsan if t['exit'] not in (0, 66)]
     if racy:
         for t in racy:
